@@ -154,6 +154,11 @@ def apply_meta(f, meta=None, name_space=None):
                 ref_params = set()
             f = refs_wrapper(f, name_space, ref_params)
 
+    elif name_space is not None and '_C_' in name_space:
+        # a function which says nothing about references works on the values
+        # of the cells: SUM(OFFSET(A1,0,0,2,2))
+        f = refs_wrapper(f, name_space, ())
+
     return f, meta
 
 
